@@ -72,10 +72,12 @@ class InterruptableThread(threading.Thread):
         self.raise_exception(SystemExit)
 
 
-def timeout(duration, func, *args, **kwargs):
+def timeout(duration, func, *args, on_timeout=None, **kwargs):
     """
     Executes a function and kills it (throwing an exception) if it runs for
-    longer than the specified duration, in seconds.
+    longer than the specified duration, in seconds. If given, ``on_timeout``
+    is called right before the still running function gets interrupted, so
+    that the caller can disown whatever the function does from then on.
     """
 
     # If libraries are not available, then we execute normally
@@ -87,6 +89,8 @@ def timeout(duration, func, *args, **kwargs):
     target_thread.join(duration)
 
     if target_thread.is_alive():
+        if on_timeout is not None:
+            on_timeout()
         target_thread.terminate()
         timeout_exception = TimeoutError('Your code took too long to run '
                                          '(it was given {} seconds); '
